@@ -13,6 +13,7 @@ import (
 	"encoding/json"
 	"fmt"
 	"io"
+	"sort"
 	"sync"
 	"time"
 
@@ -461,6 +462,71 @@ func probeEncryptorReuse() string {
 	if m, err := e.Decrypt("x", c3); err != nil || !bytes.Equal(m, small) {
 		return "FAIL round trip"
 	}
+	// the key is a function of the passphrase the encryptor was GIVEN: what the caller does with its
+	// buffer afterwards (wiping it, reusing it) does not change the key
+	buf := []byte("pass")
+	e2 := kv.V1NodeEncryptor(buf)
+	for i := range buf {
+		buf[i] = 0
+	}
+	c5, err := e2.Encrypt("x", small)
+	if err != nil {
+		return "FAIL encrypt: " + err.Error()
+	}
+	if !bytes.Equal(c1, c5) {
+		return "FAIL an encryptor whose caller wiped the passphrase buffer after constructing it seals under another key than the passphrase gives"
+	}
 	return "ok"
 }
 
+
+// C02 / C15: a write time the connection sets explicitly is the time its writes carry, to the
+// nanosecond SQLite's time format can spell (fractional seconds are part of the format Go parses):
+// two writes within one second are ordered by their fractions
+func probeSubsecondWriteTime() string {
+	px := getProxy()
+	bucket := fmt.Sprintf("pss%d", nextCounter())
+	if err := px.backend.CreateBucket(bucket); err != nil {
+		return "FAIL setup: " + err.Error()
+	}
+	db, err := sql.Open("sqlite3", ":memory:")
+	if err != nil {
+		return "FAIL " + err.Error()
+	}
+	defer db.Close()
+	db.SetMaxOpenConns(1)
+	t := fmt.Sprintf("pss_t%d", nextCounter())
+	steps := []string{
+		fmt.Sprintf("create virtual table %s using s3db(s3_bucket='%s', s3_endpoint='%s', s3_prefix='t0', columns='k primary key, v')", t, bucket, px.url),
+		"update s3db_conn set write_time='2023-11-14 22:13:30.700'",
+		"insert into " + t + " values(1,'late')",
+		"update s3db_conn set write_time='2023-11-14 22:13:30.200'",
+		"update " + t + " set v='early' where k=1",
+		"insert into " + t + " values(2,'early')",
+	}
+	for _, s := range steps {
+		if _, err := db.Exec(s); err != nil {
+			return "FAIL " + s + ": " + err.Error()
+		}
+	}
+	var v string
+	if err := db.QueryRow("select v from " + t + " where k=1").Scan(&v); err != nil {
+		return "FAIL select: " + err.Error()
+	}
+	if v != "late" {
+		return "FAIL a write at 22:13:30.200 replaced the value written at 22:13:30.700 (read back " + v + ")"
+	}
+	times, err := rowTimes(px, bucket, "t0")
+	if err != nil {
+		return "FAIL read: " + err.Error()
+	}
+	var fr []int64
+	for _, n := range times {
+		fr = append(fr, n%1000000000)
+	}
+	sort.Slice(fr, func(i, j int) bool { return fr[i] < fr[j] })
+	if len(fr) != 2 || fr[0] != 200000000 || fr[1] != 700000000 {
+		return fmt.Sprintf("FAIL stored row times lost the fractions of the write times set: %v", fr)
+	}
+	return "ok"
+}
